@@ -39,7 +39,13 @@ def init_part(rng, c, sim, styles=("list", "single", "rho", "default")):
     elif style == "single":
         c["init"] = dict(kind="single", node=rng.choice(nodes))
     elif style == "rho":
-        c["init"] = dict(kind="rho", rho=str(rng.choice([F(1, 4), F(1, 2), F(1, 8), F(3, 4), F(1)])))
+        rhos = [F(1, 4), F(1, 2), F(1, 8), F(3, 4), F(1)]
+        # exact halves N*rho = m + 1/2 (round-half-even vs half-up, floor vs round): one case in three when possible
+        halves = [F(2 * m + 1, 2 * c["n"]) for m in range(c["n"]) if F(2 * m + 1, 2 * c["n"]) <= 1
+                  and (2 * c["n"]) & (2 * c["n"] - 1) == 0]          # dyadic only: the float product N*rho is exact
+        if halves and rng.random() < 0.34:
+            rhos = halves
+        c["init"] = dict(kind="rho", rho=str(rng.choice(rhos)))
     else:
         c["init"] = dict(kind="default")
     c["recs"] = []
